@@ -183,6 +183,86 @@ def c12_groups(tier, tag='C12'):
     return gs
 
 
+KS = 'lwe-keyswitch-functions.cpp'
+KS_TABLE = [(KS, 'lweKeySwitchTranslate_fromArray'), ('lwekeyswitch.cpp', 'LweKeySwitchKey::LweKeySwitchKey'),
+            ('lwekeyswitch.cpp', 'LweKeySwitchKey::~LweKeySwitchKey'), (KS, 'init_LweKeySwitchKey'), (KS, 'destroy_LweKeySwitchKey')]
+
+
+def ks_layouts():
+    return [(t, b) for b in range(1, 32) for t in range(1, 32) if t * b <= 31]
+
+
+def c08_groups(tier, tag='C08'):
+    gs = [Group(tag + '.lemma.digits', 'c08_keyswitch.c', 'h_lemma_digits', defines={'H_LEMMA': None}, unwind=33, timeout=1200,
+                note='all 2^32 mask values, all valid (t,basebit) symbolic; loop bounded by the word width (complete)'),
+          Group(tag + '.lweKeySwitch', 'c08_keyswitch.c', 'h_lweKeySwitch', defines={'H_KEYSWITCH': None}, extract=[(KS, 'lweKeySwitch')])]
+    if tier == 'quick':
+        lay = [(8, 2), (2, 3), (1, 1), (3, 5), (15, 2), (31, 1), (1, 31)]
+        ns = [1, 2, 3]
+    else:
+        lay = ks_layouts()
+        ns = [1, 2, 3, 5]
+    for (T, B) in lay:
+        gs.append(Group('%s.lemma.rowmsg.t=%d.basebit=%d' % (tag, T, B), 'c08_keyswitch.c', 'h_lemma_rowmsg',
+                        defines={'H_LEMMA_ROWMSG': None, 'VERIF_T': T, 'VERIF_BASEBIT': B}, unwind=T + 2, backend='z3', instance={'t': T, 'basebit': B}))
+        if B > 8 and tier != 'quick' and (T, B) not in ((1, 31), (2, 15), (3, 10)):
+            continue   # base = 2^basebit rows per (i,j): the table itself gets large
+        if B > 12 and (T, B) != (1, 31):
+            continue
+        for BN in ns:
+            if (1 << B) * T * BN > 4096 or T * BN > 24:
+                continue   # keep the unwound call log small; the instance grid is still every layout at n = 1 for t <= 24
+            if (T, B) == (1, 31) :
+                continue   # a 2^31-row table is not allocatable
+            gs.append(Group('%s.translate.t=%d.basebit=%d.n=%d' % (tag, T, B, BN), 'c08_keyswitch.c', 'h_b_translate',
+                            defines={'H_TRANSLATE': None, 'VERIF_T': T, 'VERIF_BASEBIT': B, 'VERIF_BN': BN}, extract=KS_TABLE,
+                            unwind=BN * T + 3, bounded=True, timeout=1200, cbmc=['--memory-leak-check'],
+                            instance={'t': T, 'basebit': B, 'n': BN}, replay=('keyswitch', T, B, BN)))
+    return gs
+
+
+BF = 'lwe-bootstrapping-functions-fft.cpp'
+BN_ = 'lwe-bootstrapping-functions.cpp'
+
+
+def boot_groups(tag):
+    gs = []
+    for fft, f, suf in [(1, BF, '_FFT'), (0, BN_, '')]:
+        gs.append(Group('%s.blindRotate%s' % (tag, suf), 'c04_bootstrap.c', 'h_blindRotate', extract=[(f, 'tfhe_blindRotate' + suf)], loops=True,
+                        defines={'FFT': fft, 'H_BLINDROTATE': None}, cbmc=['--memory-leak-check']))
+        gs.append(Group('%s.MuxRotate%s' % (tag, suf), 'c04_bootstrap.c', 'h_MuxRotate', extract=[(f, 'tfhe_MuxRotate' + suf)],
+                        defines={'FFT': fft, 'H_MUXROTATE': None}))
+        gs.append(Group('%s.blindRotateAndExtract%s' % (tag, suf), 'c04_bootstrap.c', 'h_blindRotateAndExtract',
+                        extract=[(f, 'tfhe_blindRotateAndExtract' + suf)], defines={'FFT': fft, 'H_BRE': None}, cbmc=['--memory-leak-check']))
+        gs.append(Group('%s.bootstrap_woKS%s' % (tag, suf), 'c04_bootstrap.c', 'h_bootstrap_woKS', extract=[(f, 'tfhe_bootstrap_woKS' + suf)], loops=True,
+                        defines={'FFT': fft, 'H_WOKS': None}, cbmc=['--memory-leak-check'], replay=('woks', fft)))
+        gs.append(Group('%s.bootstrap%s' % (tag, suf), 'c04_bootstrap.c', 'h_bootstrap', extract=[(f, 'tfhe_bootstrap' + suf)],
+                        defines={'FFT': fft, 'H_BOOT': None}, cbmc=['--memory-leak-check']))
+    return gs
+
+
+def c04_groups(tier, tag='C04'):
+    gs = boot_groups(tag)
+    gs.append(Group(tag + '.lemma.testvector', 'lemmas.c', 'h_lemma_testvector', backend='z3'))
+    gs.append(Group(tag + '.lemma.monomial', 'lemmas.c', 'h_lemma_monomial', backend='cadical', timeout=1500,
+                    defines={'LEMMA_NMAX': 65536 if tier == 'quick' else (1 << 20)}, note='N <= 2^16 (quick) / 2^20 (thorough): beyond that no SAT solver finishes'))
+    # callee contracts the skeleton relies on, enforced on their real bodies
+    gs.append(Group(tag + '.dep.torusPolynomialMulByXai', 'c11_poly.c', 'h_torusPolynomialMulByXai', extract=[(TF, 'torusPolynomialMulByXai')],
+                    enforce='torusPolynomialMulByXai', loops=True, timeout=1200, replay=('poly', 'torusPolynomialMulByXai')))
+    for M in ([2048] if tier == 'quick' else [2, 4, 8, 16, 64, 256, 1024, 2048, 4096, 16384]):
+        gs.append(Group('%s.dep.modSwitchFromTorus32.M=%d' % (tag, M), 'c13_numeric.c', 'h_modSwitchFromTorus32', extract=[(NF, 'modSwitchFromTorus32')],
+                        enforce='modSwitchFromTorus32', defines={'VERIF_MSIZE': '%du' % M}, replay='numeric', instance={'Msize': M}))
+    for K in ([1] if tier == 'quick' else [1, 2, 3]):
+        gs.append(Group('%s.dep.tLweExtractLweSampleIndex.k=%d' % (tag, K), 'c14_tlwe.c', 'h_tLweExtractLweSampleIndex', extract=[(LW, 'tLweExtractLweSampleIndex')],
+                        enforce='tLweExtractLweSampleIndex', loops=True, timeout=1200, defines={'VERIF_K': K}))
+        gs.append(Group('%s.dep.tLweExtractLweSample.k=%d' % (tag, K), 'c14_tlwe.c', 'h_tLweExtractLweSample', extract=[(LW, 'tLweExtractLweSample')],
+                        enforce='tLweExtractLweSample', replace=['tLweExtractLweSampleIndex'], defines={'VERIF_K': K, 'EXTRACT_CALLEE_CONTRACT': None}))
+        gs.append(Group('%s.dep.tLweNoiselessTrivial.k=%d' % (tag, K), 'c14_tlwe.c', 'h_tLweNoiselessTrivial', extract=[(TL, 'tLweNoiselessTrivial')],
+                        enforce='tLweNoiselessTrivial', replace=['torusPolynomialClear', 'torusPolynomialCopy'], unwind=K + 3,
+                        defines={'VERIF_K': K, 'VERIF_GI': K}))
+    return gs
+
+
 PROPS = {
     'C13': {
         'groups': c13_groups,
@@ -215,6 +295,35 @@ PROPS = {
         'assumptions': STD_ASSUME + [
             'AVX2 inline-assembly path of tGswTorus32PolynomialDecompH (optimised builds) is not seen; "vectorised and scalar builds give identical digits" is not decided',
             'layouts outside the enumerated grid are not covered (quick: 4 layouts for the function contract, 8 for lemma/constructor; thorough: all valid layouts for lemma/constructor, l <= 6 and (8,4),(16,2) for the function contract)',
+        ],
+        'trusted': [],
+    },
+    'C08': {
+        'groups': c08_groups,
+        'level': 'proof',
+        'explanation': 'Arithmetic of key switching decided completely (all 2^32 mask values, all valid (t,basebit) symbolic): round-to-nearest digits, '
+                       'centred truncation error <= 2^-(t*basebit+1), carries and wrap; row messages sum to s_i times the rounded value; lweKeySwitch wiring. '
+                       'That the real translate loop subtracts exactly the rows those digits select, through the real 3-level table, is a bounded stand-in in n.',
+        'assumptions': STD_ASSUME + [
+            'lweKeySwitchTranslate_fromArray loop structure and 3-level table memory safety: bounded stand-in (n in {1,2,3}(,5), table built by the real constructor, every a_i fully symbolic), labelled bounded: a well-formedness precondition on a pointer table of symbolic length needs quantifiers, which CBMC 6.11 does not decide (SAT ignores forall, SMT back ends error)',
+            'phase conclusion phase(out) = phase(in) + sum_i s_i(a_i - abar_i) - sum noise(rows used): lemma + induction over n, the induction is not machine-checked',
+            'noise statistics with a real noisy key-switching key: not decided (statistical)',
+            'lweSubTo is the AVX2 assembly in optimised builds; its scalar body is proved in C14',
+        ],
+        'trusted': [],
+    },
+    'C04': {
+        'groups': c04_groups,
+        'level': 'proof',
+        'explanation': 'Every exact step between the input sample and the output sample, FFT and coefficient-domain variants, n and N symbolic: '
+                       'modulus switch of b and of every a_i to Z_2N into a scratch array of n entries, constant test polynomial, X^(2N-barb) start, '
+                       'ping-pong rotation sequence (each index once iff exponent non-zero, in order, with its own key row), coefficient-0 extraction, '
+                       'key switch; index lemma over all 2N values of p.',
+        'assumptions': STD_ASSUME + [
+            'numerical content of one CMux step (external product by a TGSW encryption of bit s multiplies the phase by X^(a*s) up to noise): assumed (FFT / statistical); the call structure of the step is proved',
+            '"small output noise that does not depend on x": not decided (statistical)',
+            'modSwitchFromTorus32 range postcondition for Msize = 2N outside the enumerated grid is assumed at the call site',
+            'callees of the orchestration functions are monitor shims that write ghost state only; their own contracts are enforced in the dep.* groups (MulByXai, extraction, trivial sample) or in C09/C12/C14',
         ],
         'trusted': [],
     },
